@@ -86,6 +86,210 @@ pub fn check_pttl(case: &PCase, obs: &mut Obs) -> Result<(), Fail> {
     Ok(())
 }
 
+// --- path level: the three transfer paths inside the migration world ------------------
+
+use crate::engines::migworld::*;
+use crate::engines::world::*;
+use crate::props::c03;
+use crate::props::c09::slot_keys;
+use std::collections::BTreeMap;
+use std::time::Duration;
+
+#[derive(Debug, Clone, Serialize, Deserialize)]
+pub struct PathCase {
+    /// 0 scan, 1 pull (non-deleting command at the destination), 2 push (deleting command -> UMSYNC)
+    pub path: u8,
+    /// remaining time-to-live of each key in microseconds when the migration starts; 0 = persistent
+    pub ttls_us: Vec<u64>,
+    pub delays: Vec<u32>,
+    pub scan_count: u8,
+}
+
+pub fn path_strategy() -> impl Strategy<Value = PathCase> {
+    let ttl = prop_oneof![
+        2 => Just(0u64),
+        3 => 1u64..1000,          // less than a millisecond left: PTTL 0
+        2 => 1000u64..3000,
+        2 => 3000u64..100000,
+        2 => 1_000_000u64..100_000_000,
+    ];
+    (0u8..3, prop::collection::vec(ttl, 1..8), prop::collection::vec(prop_oneof![3 => Just(0u32), 2 => 0u32..400, 1 => 0u32..3000], 1..12), prop_oneof![Just(1u8), Just(2u8), Just(16u8)])
+        .prop_map(|(path, ttls_us, delays, scan_count)| PathCase { path, ttls_us, delays, scan_count })
+}
+
+/// every RESTORE that reached the destination must be justified by an earlier PTTL reply for
+/// that key on the source (existential match: the three paths interleave)
+pub fn check_restores(mig: &Mig, path: &str, obs: &mut Obs) -> Result<usize, Fail> {
+    let src = mig.src_redis.log_snapshot();
+    let dst = mig.dst_redis.log_snapshot();
+    let mut n = 0;
+    for r in dst.iter().filter(|e| upper(&e.cmd[0]) == "RESTORE" && e.cmd.len() >= 4) {
+        let key = &r.cmd[1];
+        let ttl_arg = &r.cmd[2];
+        let reads: Vec<Vec<u8>> = src
+            .iter()
+            .filter(|e| upper(&e.cmd[0]) == "PTTL" && e.cmd.get(1) == Some(key) && e.at <= r.at)
+            .filter_map(|e| match &e.reply {
+                undermoon::protocol::Resp::Integer(i) => Some(i.clone()),
+                _ => None,
+            })
+            .collect();
+        if reads.is_empty() {
+            fail!(
+                format!("C19:restore-without-pttl path={}", path),
+                "path={}: RESTORE of key {:?} with ttl argument {:?} reached the destination but no PTTL for that key was read from the source before",
+                path,
+                String::from_utf8_lossy(key),
+                String::from_utf8_lossy(ttl_arg)
+            );
+        }
+        let mut last_err = None;
+        let mut justified = false;
+        for p in &reads {
+            if p == b"-2" {
+                continue;
+            }
+            match check_ttl_argument(p, ttl_arg, path) {
+                Ok(class) => {
+                    justified = true;
+                    obs.class(format!("restore:{}:{}", path, class));
+                    if class.starts_with("pttl") {
+                        obs.nontrivial = true;
+                    }
+                    break;
+                }
+                Err(e) => last_err = Some(e),
+            }
+        }
+        if !justified {
+            return Err(last_err.unwrap_or_else(|| {
+                Fail::new(
+                    format!("C19:restore-of-missing-key path={}", path),
+                    format!("path={}: key {:?} was restored although every PTTL read said -2 (key not found)", path, String::from_utf8_lossy(key)),
+                )
+            }));
+        }
+        n += 1;
+    }
+    Ok(n)
+}
+
+async fn run_path(case: &PathCase, obs: &mut Obs) -> Result<(), Fail> {
+    let cfg = MigCfg { scan_count: case.scan_count as u64, ..MigCfg::default() };
+    let mig = Mig::build(cfg.clone()).await.map_err(|e| Fail::new("harness:build", e))?;
+    let path = ["scan", "pull", "push"][case.path as usize % 3];
+    let width = cfg.range.1 - cfg.range.0 + 1;
+    let now = tokio::time::Instant::now();
+    let mut keys: Vec<(Vec<u8>, u64)> = vec![];
+    for (i, ttl) in case.ttls_us.iter().enumerate() {
+        let slot = cfg.range.0 + (i * (width / case.ttls_us.len())).min(width - 1);
+        let k = slot_keys()[slot].clone();
+        let expire_at = if *ttl == 0 { None } else { Some(now + Duration::from_micros(*ttl)) };
+        mig.src_redis.store.lock().insert(k.clone(), Entry { val: Val::Str(format!("v{}", i).into_bytes()), expire_at });
+        keys.push((k, *ttl));
+    }
+    mig.world.net.gate.set_delays(case.delays.clone());
+    if case.path != 0 {
+        mig.world.net.gate.hold("SCAN");
+    }
+    mig.install(2, 1, 2, &[DST, SRC, BY]).await.map_err(|e| Fail::new("harness:install", e))?;
+    if case.path != 0 {
+        // wait until the destination serves the range (PRESWITCH passed), then touch every key there
+        let ok = tokio::time::timeout(Duration::from_secs(20), async {
+            while !mig.trace_has("UMCTL:PRESWITCH", DST) {
+                tokio::time::sleep(Duration::from_micros(50)).await;
+            }
+        })
+        .await
+        .is_ok();
+        ensure!(ok, "harness:phase", "PRESWITCH was never sent");
+        tokio::time::sleep(Duration::from_micros(10)).await;
+        let client = mig.world.client(DST).expect("dst");
+        for (k, _) in &keys {
+            let c = if case.path == 1 { cmdb(&[b"GET", k]) } else { cmdb(&[b"LPOP", k]) };
+            let _ = tokio::time::timeout(Duration::from_secs(5), client.cmd(&c)).await;
+        }
+        mig.world.net.gate.release("SCAN");
+    }
+    let finished = tokio::time::timeout(Duration::from_secs(60), async {
+        loop {
+            if !mig.finished(SRC).await.is_empty() && !mig.finished(DST).await.is_empty() {
+                break;
+            }
+            tokio::time::sleep(Duration::from_millis(2)).await;
+        }
+    })
+    .await
+    .is_ok();
+    ensure!(finished, "harness:migration-did-not-finish", "migration did not finish");
+    let n = check_restores(&mig, path, obs)?;
+    if case.path == 1 && n > 0 && mig.trace_count("UMSYNC", SRC) == 0 {
+        obs.class("path:pull-exercised");
+    }
+    if case.path == 2 && mig.trace_count("UMSYNC", SRC) > 0 {
+        obs.class("path:push-exercised");
+    }
+    if case.path == 0 && n > 0 {
+        obs.class("path:scan-exercised");
+    }
+    // afterwards: persistent keys are persistent on the destination; keys that had a TTL and
+    // still exist have one
+    for (k, ttl) in &keys {
+        if let Some(e) = mig.dst_redis.get_raw(k) {
+            if *ttl == 0 {
+                ensure!(
+                    e.expire_at.is_none(),
+                    "C19:persistent-key-gets-expiry",
+                    "path={}: key {:?} was persistent on the source but has an expiry on the destination",
+                    path,
+                    String::from_utf8_lossy(k)
+                );
+            } else {
+                ensure!(
+                    e.expire_at.is_some(),
+                    format!("C19:ttl-lost path={} pttl=after-migration", path),
+                    "path={}: key {:?} had {} us to live when the migration started and is PERSISTENT on the destination",
+                    path,
+                    String::from_utf8_lossy(k),
+                    ttl
+                );
+            }
+        }
+    }
+    Ok(())
+}
+
+pub fn check_path(case: &PathCase, obs: &mut Obs) -> Result<(), Fail> {
+    let rt = world_runtime();
+    let r = rt.block_on(run_path(case, obs));
+    drop(rt);
+    r
+}
+
+/// random C03 worlds with expiring keys: only the RESTORE justification rule is checked
+pub fn check_world(case: &c03::DCase, obs: &mut Obs) -> Result<(), Fail> {
+    let rt = world_runtime();
+    let r = rt.block_on(async {
+        let mut init = BTreeMap::new();
+        let ttl_of = |i: u8| -> Option<Duration> {
+            match i % 4 {
+                0 => None,
+                1 => Some(Duration::from_micros(300 + 977 * i as u64)),
+                2 => Some(Duration::from_millis(20 + i as u64)),
+                _ => Some(Duration::from_secs(1000)),
+            }
+        };
+        let r = c03::run_world(case, &ttl_of, &mut init).await?;
+        check_restores(&r.mig, "mixed", obs)?;
+        c03::classify_paths(&r.mig, obs);
+        Ok(())
+    });
+    drop(rt);
+    r
+}
+
+pub const RULE_PATH: &str = "[paths] the real migration between two real proxies with keys whose remaining time-to-live is generated (persistent, < 1 ms so that PTTL reads 0 on the virtual clock, 1..3 ms, ms..s, long), transferred by a forced path: scan only / on-demand pull (SCAN held, GET at the destination) / push (SCAN held, a deleting-type command at the destination -> UMSYNC); [worlds] random C03 worlds with expiring keys; oracle from the stand-in logs: every RESTORE reaching the destination is justified by an earlier PTTL reply p for that key on the source (p=-1 -> ttl 0; p>=0 -> 1 <= ttl <= max(p,1), never 0); persistent keys stay persistent, keys with a TTL keep one; non-trivial = a key with a TTL was transferred; distinct = hash of the case";
+
 pub const RULE_FN: &str = "[function] pttl_to_restore_expire_time over every class of PTTL reply (-2, -1, 0, 1, small, 2^31-1..2^31+1, 2^63-1, uniform positive, malformed bytes); oracle: -1 -> '0'; p >= 0 -> decimal t with 1 <= t <= max(p,1), never '0'; non-trivial = p >= 0; distinct = the reply bytes";
 
 pub fn run(ctx: &Ctx, findings: &Findings) -> PropReport {
@@ -95,15 +299,27 @@ pub fn run(ctx: &Ctx, findings: &Findings) -> PropReport {
         if let Some(r) = replay_case::<PCase>(ctx, findings, "function", &v, &check_pttl) {
             subs.push(r);
         }
+        if let Some(r) = replay_case::<PathCase>(ctx, findings, "paths", &v, &check_path) {
+            subs.push(r);
+        }
+        if let Some(r) = replay_case::<c03::DCase>(ctx, findings, "worlds", &v, &check_world) {
+            subs.push(r);
+        }
     } else {
         CASE_THREADS.store(false, std::sync::atomic::Ordering::Relaxed);
         subs.push(drive(ctx, findings, "function", RULE_FN, ctx.cases(200000, 4000000), pttl_strategy, &check_pttl));
         CASE_THREADS.store(true, std::sync::atomic::Ordering::Relaxed);
+        let _ = slot_keys();
+        subs.push(drive(ctx, findings, "paths", RULE_PATH, ctx.cases(3000, 60000), path_strategy, &check_path));
+        subs.push(drive(ctx, findings, "worlds", RULE_PATH, ctx.cases(1000, 20000), || c03::strategy(8000), &check_world));
     }
     PropReport {
         level: "exploration",
         subs,
-        assumptions: vec!["malformed PTTL replies are outside the domain Redis can produce; no claim is made for them".into()],
+        assumptions: vec![
+            "malformed PTTL replies are outside the domain Redis can produce; no claim is made for them".into(),
+            "the RESTORE ttl is compared with the PTTL value read (relative), not with the key's original absolute expiry: transfer latency legitimately shifts the instant".into(),
+        ],
         extra: Default::default(),
     }
 }
